@@ -703,6 +703,18 @@ func argBound(info *types.Info, e *engines, cc *ast.CaseClause, obj types.Object
 // fetchAdvance: in the dispatch loop, the statements before the switch read code[ip₀] as the
 // opcode and advance ip; returns the advance.
 func fetchAdvance(info *types.Info, vm *eng.VMModel) (int64, string) {
+	adv, _, msg := fetchInfoFull(info, vm)
+	return adv, msg
+}
+
+// fetchInfo: the advance and, per saved copy of ip (field or variable text), its offset from the
+// opcode's position.
+func fetchInfo(info *types.Info, vm *eng.VMModel) (int64, map[string]int64) {
+	adv, saved, _ := fetchInfoFull(info, vm)
+	return adv, saved
+}
+
+func fetchInfoFull(info *types.Info, vm *eng.VMModel) (int64, map[string]int64, string) {
 	var loop *ast.ForStmt
 	ast.Inspect(vm.Run.Body, func(n ast.Node) bool {
 		if f, ok := n.(*ast.ForStmt); ok && loop == nil {
@@ -715,7 +727,7 @@ func fetchAdvance(info *types.Info, vm *eng.VMModel) (int64, string) {
 		return true
 	})
 	if loop == nil {
-		return -1, "the dispatch switch is not a direct statement of a for loop"
+		return -1, nil, "the dispatch switch is not a direct statement of a for loop"
 	}
 	ipIs := func(x ast.Expr) bool { return isNamedField(info, x, "ip") }
 	adv := int64(0)
@@ -731,7 +743,7 @@ func fetchAdvance(info *types.Info, vm *eng.VMModel) (int64, string) {
 			if ipIs(s.X) && s.Tok == token.INC {
 				adv++
 			} else if ipIs(s.X) {
-				return -1, "ip decremented at fetch"
+				return -1, nil, "ip decremented at fetch"
 			}
 		case *ast.AssignStmt:
 			if len(s.Lhs) != 1 || len(s.Rhs) != 1 {
@@ -746,7 +758,7 @@ func fetchAdvance(info *types.Info, vm *eng.VMModel) (int64, string) {
 						}
 					}
 				}
-				return -1, "ip assigned at fetch in a form not understood"
+				return -1, nil, "ip assigned at fetch in a form not understood"
 			}
 			if ipIs(s.Rhs[0]) {
 				saved[eng.ExprStr(s.Lhs[0])] = adv
@@ -755,22 +767,22 @@ func fetchAdvance(info *types.Info, vm *eng.VMModel) (int64, string) {
 			if id, ok := s.Lhs[0].(*ast.Ident); ok && tagID != nil && objOf(info, id) == info.Uses[tagID] {
 				ix, ok := eng.Unparen(s.Rhs[0]).(*ast.IndexExpr)
 				if !ok {
-					return -1, "the opcode is not read from the code buffer"
+					return -1, nil, "the opcode is not read from the code buffer"
 				}
 				if ipIs(ix.Index) {
 					opAt = adv
 				} else if v, ok := saved[eng.ExprStr(ix.Index)]; ok {
 					opAt = v
 				} else {
-					return -1, "the opcode is read at an index that is not the instruction pointer"
+					return -1, nil, "the opcode is read at an index that is not the instruction pointer"
 				}
 			}
 		}
 	}
 	if opAt != 0 {
-		return -1, "the opcode is not read at the instruction pointer's value at the top of the loop"
+		return -1, nil, "the opcode is not read at the instruction pointer's value at the top of the loop"
 	}
-	return adv, ""
+	return adv, saved, ""
 }
 
 // ---- R5.4: narrowing conversions that feed operands are range-checked --------------------
